@@ -94,6 +94,27 @@ class IntEst(BaseEstimator, ClassifierMixin):
         return p
 
 
+class SearchEst(BaseEstimator, ClassifierMixin):
+    """Recording estimator used INSIDE a GridSearchCV: every fit records the (row id, label) pairs it receives."""
+
+    def __init__(self, c=1.0, token=0):
+        self.c, self.token = c, token
+
+    def fit(self, X, y):
+        self.classes_ = np.array([0, 1])
+        rec = _REC.get(self.token)
+        if rec is not None:
+            rec.append(("sfit", [int(round(v)) for v in X[:, 0]], [int(round(float(v) * 2)) for v in y]))
+        return self
+
+    def decision_function(self, X):
+        return self.c * X[:, 1].astype(float)
+
+    def predict(self, X):
+        d = self.decision_function(X)
+        return (d > np.median(d)).astype(int)
+
+
 class RealEst(BaseEstimator, ClassifierMixin):
     """A real scikit-learn learner behind a recorder; the row-id column is stripped before the learner sees X."""
 
@@ -263,6 +284,20 @@ def run_variant(case, v, extra=False):
                             out["preds_scaled"] = evs
                         except Exception as e:
                             out["preds_scaled_skipped"] = "%s: %s" % (type(e).__name__, str(e)[:80])
+                        # and with a hyper-parameter search wrapped around a recording estimator
+                        from sklearn.model_selection import GridSearchCV
+                        tok3 = new_token()
+                        try:
+                            m3 = mokapot.Model(GridSearchCV(SearchEst(token=tok3), {"c": [1.0, 2.0]}, cv=2, refit=False),
+                                               scaler="as-is", train_fdr=thr[0] / thr[1], max_iter=1, direction=case["direction"],
+                                               override=True, shuffle=bool(v["shuffle"]), rng=11)
+                            try:
+                                m3.fit(ds)
+                            except Exception:
+                                pass            # only what the search was fed matters here
+                            out["search_fits"] = [{"ids": e[1], "y2": e[2]} for e in _REC[tok3] if e[0] == "sfit"][:8]
+                        finally:
+                            _REC.pop(tok3, None)
             except MachineryError:
                 raise
             except Exception as e:
@@ -305,7 +340,7 @@ def run_case(case):
              "kind": "real" if real else "int", "eps": EPS_REAL if real else 0,
              "tgt": [bool(x) for x in case["tgt"]], "dir": direction_ints(case),
              "raised": r["raised"], "fits": r["fits"], "scores": r["scores"], "preds": r["preds"],
-             "preds_scaled": r.get("preds_scaled", []),
+             "preds_scaled": r.get("preds_scaled", []), "search_fits": r.get("search_fits", []),
              "ref_status": "none", "ref_ids": [], "ref_s": [], "ref_fits": [],
              "model_outcome": "", "model_pred": []}
         if i > 0:
